@@ -1,4 +1,6 @@
 import WfProofs.EngineTelemetry
+import WfProofs.RunnerInputRequired
+import WfProofs.SerialLemmas
 /-!
 # C35 — step lifecycle telemetry on the stream is balanced and ordered
 
@@ -74,3 +76,145 @@ example :
       [(.addEvent { ev := C35.exEv 1 } none, 0), (.addEvent { ev := C35.exEv 2 } none, 0),
        (.stepResult 1 0 (C35.exEv 1) [.result none], 1), (.addEvent { ev := C35.exEv 3 } none, 2)]
     (r.2.contains .crash, (r.1.workers 1).inProg.map (·.wid)) = (false, [1, 0]) := by decide
+
+/-! ## The published stream of a run (runner LTS)
+
+The theorems above speak about command lists and assume that the reducer rejects no tick (`hnc`).  On the
+runner LTS (`WfModel/Runner.lean`: `Runner.init` — which performs the rewind of in-progress work of a fresh
+**or restored** state and executes its commands — followed by an arbitrary action list) the assumption is a
+theorem (`C04_crash_unreachable`, `WfProofs/RunnerNoCrash.lean`), and what is published is the stream
+itself: `Runner.stream`, written by `execCmds` in command order and cut at an exit command. -/
+
+/-- the run: start-up (rewind + its commands) and then the schedule `acts` -/
+abbrev C35.runOf (cfg : Cfg) (pol : Policy) (st0 : State) (now : Int) (start : Option Ev) (timeout : Option Nat)
+    (acts : List Act) : Runner :=
+  Runner.run cfg pol (Runner.init cfg st0 now start timeout) acts
+
+/-- **C35 on the stream, no `hnc`**: for every configuration, policy oracle, initial state satisfying the
+worker-slot invariant (every fresh state and every restored one: `C35_resumed_stream_ordered`), start event,
+timeout and **every** schedule whose step bodies do not forge lifecycle events, the run never crashes, the
+`StepStateChanged` sequence of the published stream — from its first event, i.e. including what the rewind
+at start-up re-initiates — is a valid run of the open-slot automaton from "no slot open", and while the run
+is live the open slots are exactly the invocations in progress. -/
+theorem C35_run_stream_ordered (cfg : Cfg) (hwf : cfg.WF) (pol : Policy) (st0 : State) (h0 : IdsInv cfg st0)
+    (now : Int) (start : Option Ev) (timeout : Option Nat) (acts : List Act)
+    (hnf : ∀ a ∈ acts, a.noForge = true) :
+    (C35.runOf cfg pol st0 now start timeout acts).outcome ≠ some .crashed ∧
+    ∃ o', Valid (fun _ _ => false) (pubs (C35.runOf cfg pol st0 now start timeout acts).stream) o' ∧
+      ((C35.runOf cfg pol st0 now start timeout acts).outcome = none →
+        Agree cfg o' (C35.runOf cfg pol st0 now start timeout acts).st ∧
+        IdsInv cfg (C35.runOf cfg pol st0 now start timeout acts).st) := by
+  have hinv := run_telInv cfg hwf pol acts _ hnf (init_telInv cfg hwf st0 h0 now start timeout)
+  refine ⟨?_, ?_⟩
+  · exact run_not_crashed cfg hwf pol acts _ (init_runInv cfg hwf False st0 h0 now start timeout)
+      (init_not_crashed cfg st0 now start timeout)
+  · obtain ⟨o', hv, hag⟩ := hinv.tel
+    exact ⟨o', hv, fun hn => ⟨hag hn, hinv.run.ids⟩⟩
+
+/-- a restored context (`to_serialized` → JSON → `from_serialized`, model `roundtrip`) has nothing in progress,
+so the theorem applies to **every resumed run**, whatever state `st` was serialised -/
+theorem C35_resumed_stream_ordered (cfg : Cfg) (hwf : cfg.WF) (pol : Policy) (st : State)
+    (now : Int) (start : Option Ev) (timeout : Option Nat) (acts : List Act)
+    (hnf : ∀ a ∈ acts, a.noForge = true) :
+    ∃ o', Valid (fun _ _ => false) (pubs (C35.runOf cfg pol (roundtrip cfg st) now start timeout acts).stream) o' ∧
+      ((C35.runOf cfg pol (roundtrip cfg st) now start timeout acts).outcome = none →
+        Agree cfg o' (C35.runOf cfg pol (roundtrip cfg st) now start timeout acts).st) := by
+  have h0 : IdsInv cfg (roundtrip cfg st) := by
+    intro c _
+    rw [roundtrip_workers]
+    split
+    · simp [deserStep, IdsOk, usedIds]
+    · exact idsOk_empty _
+  obtain ⟨_, o', hv, hag⟩ := C35_run_stream_ordered cfg hwf pol _ h0 now start timeout acts hnf
+  exact ⟨o', hv, fun hn => (hag hn).1⟩
+
+/-- **counting form**: in every prefix of the published stream, for every (step, worker),
+`#RUNNING − #NOT_RUNNING` is 0 or 1 (each `RUNNING` is matched by at most one `NOT_RUNNING`, never the
+other way round, never two `RUNNING` in a row); and while the run is live the difference over the whole
+stream is 1 exactly for the slots in progress (so every `RUNNING` of a finished invocation has been matched
+by exactly one `NOT_RUNNING`). -/
+theorem C35_running_minus_not_running (cfg : Cfg) (hwf : cfg.WF) (pol : Policy) (st0 : State) (h0 : IdsInv cfg st0)
+    (now : Int) (start : Option Ev) (timeout : Option Nat) (acts : List Act)
+    (hnf : ∀ a ∈ acts, a.noForge = true) :
+    (∀ (pre : List Pub), pre <+: (C35.runOf cfg pol st0 now start timeout acts).stream → ∀ step wid,
+      runCount step wid pre = notRunCount step wid pre ∨ runCount step wid pre = notRunCount step wid pre + 1) ∧
+    ((C35.runOf cfg pol st0 now start timeout acts).outcome = none → ∀ c ∈ cfg.steps, ∀ wid,
+      (runCount c.name wid (C35.runOf cfg pol st0 now start timeout acts).stream =
+          notRunCount c.name wid (C35.runOf cfg pol st0 now start timeout acts).stream + 1 ↔
+        wid ∈ usedIds ((C35.runOf cfg pol st0 now start timeout acts).st.workers c.name)) ∧
+      (runCount c.name wid (C35.runOf cfg pol st0 now start timeout acts).stream =
+          notRunCount c.name wid (C35.runOf cfg pol st0 now start timeout acts).stream ↔
+        wid ∉ usedIds ((C35.runOf cfg pol st0 now start timeout acts).st.workers c.name))) := by
+  obtain ⟨_, o', hv, hag⟩ := C35_run_stream_ordered cfg hwf pol st0 h0 now start timeout acts hnf
+  refine ⟨?_, ?_⟩
+  · intro pre ⟨suf, hs⟩ step wid
+    rw [← hs, pubs_append] at hv
+    obtain ⟨om, hm⟩ := Valid.prefix _ _ _ _ hv
+    have hc := valid_count step wid pre _ _ hm
+    cases hom : om step wid <;> simp only [hom, b2n, Bool.false_eq_true, ↓reduceIte] at hc <;> omega
+  · intro hn c hc wid
+    have hcnt := valid_count c.name wid _ _ _ hv
+    have hiff := (hag hn).1 c hc wid
+    cases ho : o' c.name wid
+    · have hnot : wid ∉ usedIds ((C35.runOf cfg pol st0 now start timeout acts).st.workers c.name) := by
+        intro hm; rw [hiff.mpr hm] at ho; cases ho
+      simp only [ho, b2n, Bool.false_eq_true, ↓reduceIte] at hcnt
+      exact ⟨⟨fun h => by omega, fun h => absurd h hnot⟩, ⟨fun _ => hnot, fun _ => by omega⟩⟩
+    · have hin := hiff.mp ho
+      simp only [ho, b2n, Bool.false_eq_true, ↓reduceIte] at hcnt
+      exact ⟨⟨fun _ => hin, fun _ => by omega⟩, ⟨fun h => by omega, fun h => absurd hin h⟩⟩
+
+/-- **`InputRequiredEvent` exactly once over a whole run**: for an event `e` of kind `inputRequired`, the
+number of copies of `e` on the published stream equals, while the run is live, the number of times a step
+*returned* `e` in the ticks the loop processed (its log) — each return is published exactly once, and no
+later tick (re-queue for a retry of its consumer, routing, waiter wake-up, collect re-run, queue drain) nor
+the rewind at start-up publishes it again; once an exit command has ended the run it is at most that number.
+With the id discipline of the model (an event value, identified by its `uid`, is returned by one step
+result: `logReturned e log = 1`) that is: exactly once.  Excluded by hypothesis are the three ways an event
+reaches the stream by design without being returned: a step writing it itself, a publish-request tick, and
+`wait_for_event(waiter_event = e)`. -/
+theorem C35_input_required_once_per_run (cfg : Cfg) (pol : Policy) (st0 : State) (now : Int) (start : Option Ev)
+    (timeout : Option Nat) (acts : List Act) (e : Ev) (hk : e.kind = .inputRequired)
+    (hw : ∀ a ∈ acts, a.writes e = false)
+    (hlog : ∀ tn ∈ (C35.runOf cfg pol st0 now start timeout acts).log, tn.1.foreign e = false) :
+    streamCount e (C35.runOf cfg pol st0 now start timeout acts).stream ≤
+        logReturned e (C35.runOf cfg pol st0 now start timeout acts).log ∧
+      ((C35.runOf cfg pol st0 now start timeout acts).outcome = none →
+        streamCount e (C35.runOf cfg pol st0 now start timeout acts).stream =
+          logReturned e (C35.runOf cfg pol st0 now start timeout acts).log) :=
+  run_ireInv cfg pol e hk acts _ hw hlog (init_ireInv cfg st0 now start timeout e)
+
+/-! Non-vacuity.  (1) A **resumed** run: the restored context holds three queued invocations of a step with
+two workers (nothing is in progress in a restored context); start-up re-initiates two of them
+(`RUNNING` on workers 0 and 1 are the first two events of the stream), worker 1 finishes, the third
+invocation takes its slot.  (2) A step returns an `InputRequiredEvent`, its consumer fails once and is
+retried with delay 0 (the event travels through a re-queue command): one copy on the stream. -/
+def C35.exResumed : State :=
+  { isRunning := true,
+    workers := fun s => if s = 1 then { queue := [{ ev := C35.exEv 1 }, { ev := C35.exEv 2 }, { ev := C35.exEv 3 }] } else {} }
+def C35.exActs : List Act := [.workerDone 1 1 [.result none], .stepWrite (.event (C35.exEv 77)), .drain]
+example : C35.exCfg.WF ∧ IdsInv C35.exCfg C35.exResumed ∧ (∀ a ∈ C35.exActs, a.noForge = true) :=
+  ⟨by simp [Cfg.WF, Cfg.names, C35.exCfg],
+   by intro c _; simp [C35.exResumed, IdsOk, usedIds]; split <;> simp,
+   by decide⟩
+example :
+    let r := C35.runOf C35.exCfg (fun _ _ _ _ => .stop) C35.exResumed 0 none none C35.exActs
+    (r.stream.filter Pub.isSlotChange, r.outcome, usedIds (r.st.workers 1),
+      runCount 1 1 r.stream, notRunCount 1 1 r.stream, runCount 1 0 r.stream, notRunCount 1 0 r.stream) =
+    ([.stepState .running 1 5 .unset (some 0), .stepState .running 1 5 .unset (some 1),
+      .stepState .notRunning 1 5 .noneType (some 1), .stepState .running 1 5 .unset (some 1)],
+     none, [0, 1], 2, 1, 1, 0) := by decide
+
+def C35.ireCfg : Cfg :=
+  { steps := [{ name := 1, accepted := [5], numWorkers := 1, hasRetry := false },
+              { name := 2, accepted := [2], numWorkers := 1, hasRetry := true }] }
+def C35.ire : Ev := { ty := 2, kind := .inputRequired, uid := 9 }
+def C35.ireActs : List Act :=
+  [.drain, .workerDone 1 0 [.result (some C35.ire)], .drain, .drain, .workerDone 2 0 [.failed 7 0], .drain, .drain,
+   .workerDone 2 0 [.result none], .drain]
+example :
+    let r := C35.runOf C35.ireCfg (fun _ _ _ _ => .retry 0) initState 0 (some (C35.exEv 1)) none C35.ireActs
+    (C35.ireActs.all (fun a => !a.writes C35.ire), r.log.all (fun tn => !tn.1.foreign C35.ire),
+      r.log.length, streamCount C35.ire r.stream, logReturned C35.ire r.log, r.outcome) =
+    (true, true, 6, 1, 1, none) := by decide
+example : C35.ire.kind = .inputRequired := rfl
